@@ -1136,9 +1136,11 @@ class Elemwise(Blockwise):
         # Pad index to full length
         full_index = index + (slice(None),) * (len(out_ind) - len(index))
 
-        # Build sliced inputs
+        # Build sliced inputs.  Array-valued ``where=`` / ``out=`` operands are
+        # indexed like any other operand (they go last and are split off below).
+        extra = [a for a in (self.where, self.out) if isinstance(a, ArrayExpr)]
         new_args = []
-        for arg in self.elemwise_args:
+        for arg in list(self.elemwise_args) + extra:
             if is_scalar_for_elemwise(arg):
                 new_args.append(arg)
             else:
@@ -1183,12 +1185,15 @@ class Elemwise(Blockwise):
                 sliced_arg = new_collection(arg)[tuple(arg_slices)]
                 new_args.append(sliced_arg.expr)
 
+        new_out = new_args.pop() if isinstance(self.out, ArrayExpr) else self.out
+        new_where = new_args.pop() if isinstance(self.where, ArrayExpr) else self.where
+
         return Elemwise(
             self.op,
             self.operand("dtype"),
             self.operand("name"),
-            self.where,
-            self.out,
+            new_where,
+            new_out,
             self.operand("_user_kwargs"),
             *new_args,
         )
